@@ -25,6 +25,10 @@ Lemma minmax_le'' a b x : a <= b -> Rmin a b <= x <= Rmax a b -> a <= x <= b.
 Proof. intros H. unfold Rmin, Rmax. destruct (Rle_dec a b); lra. Qed.
 
 (* ================= shape of the sampler ================= *)
+(* the first statement of sample is self.check_fit() (F23 fix): an unfitted copula raises NotFittedError before the tau
+   guard and before any draw (the state machine side is C19_unfitted_biv_sample) *)
+Theorem C09_sample_checks_fit_first : bivariate_sample_check_fit_first = true.
+Proof. reflexivity. Qed.
 Theorem C09_tau_guard ppf tau d1 d2 : 1 < tau \/ tau < -1 -> bivariate_sample ppf tau d1 d2 = None.
 Proof.
   intros H. unfold bivariate_sample, bivariate_sample_guard.
